@@ -131,7 +131,7 @@ CHECKS.update({
         text='Bounded symbolic execution of Chef(...).cook() for three user recipe files and HRR/ENT/SRi/SDi/RRi, with and without kept fields, serial and parallel, on all layouts of '
              '3 boxes over 2 files: output names in order, each new component = recipe (or UF_property(T, P, Y) with the right slices and species / reaction index) on THAT box\'s data, kept '
              'components word identity (also where the thermo state is cleaned), min/max rows = extrema of the written data, real validator accepts.',
-        note=TRUST + 'Cantera numerics are outside (uninterpreted functions; the replays use the real Cantera on a two-species mechanism).',
+        note=TRUST + 'Cantera numerics are outside (uninterpreted functions; the replays use the real Cantera on a two-species mechanism). In the offset-magnitude run the knife is wrapped (the real worker runs; the byte positions it returns are moved up by a symbolic base <= 2^40) and the level headers must list base + position.',
         design='5 C11'),
     'C12': dict(
         technique='symbolic schedules: execution order of every pool call and completion order of imap_unordered are z3 choice variables, every feasible order a path; '
